@@ -1,4 +1,4 @@
-"""Registry of claimed properties (source of MANIFEST.json, see tools/gen_manifest.py)."""
+"""Not-applicable list and engine list (claimed properties carry their own META in rules/cXX.py; see tools/gen_manifest.py)."""
 
 NOT_APPLICABLE = {
     'C11': 'max-min fairness of the water-filling loop quantifies over numeric multisets and rounding; no structural clause of it is a '
@@ -8,19 +8,6 @@ NOT_APPLICABLE = {
     'C37': 'numerical correctness of Scala statistics routines against their mathematical definitions; no static rule in reach bounds floating-point results',
     'C39': 'liveness and mutual exclusion over all interleavings of concurrent driver loops, workers and faults; the per-message safety '
            'obligations it rests on are decided statically under C04/C07/C10, the protocol-level claim is not',
-}
-
-# pid -> dict(category, text, note, technique, design_ref)
-CLAIMED = {
-    'C21': dict(
-        category='proof',
-        text='Exhaustive truth table of the extracted retry handlers over all classifier valuations x failure indices, and exhaustive interval '
-             'evaluation of the back-off function for every try count; every row/try count is an obligation and all are discharged by our own '
-             'evaluator over the syntax tree. This is the right level because the retry decision depends only on four predicates and a counter.',
-        note='Trusted: CPython ast; the evaluator in engines/absdom.py; randrange/asyncio.sleep semantics. Not decided: which exception classes are transient.',
-        technique='static analysis: predicate-abstraction truth table + interval abstract interpretation over the AST',
-        design_ref='DESIGN.md §3 C21',
-    ),
 }
 
 ENGINES = {
